@@ -161,6 +161,8 @@ def run(prog, tier, repo):
 
     bare = {}
     for gid, g in tops.items():
+        if g.locals[0].k == 'prim':
+            continue        # a predicate over a node (`fn ..(&Binary) -> bool`) asks a question, it does not print the node
         for k, T in params_of(g).items():
             if not reads_star(gid, T):
                 bare.setdefault(gid, set()).add(T)
